@@ -81,11 +81,12 @@ func edKnownCause(sig string) bool {
 // edRetractDetail pairs every typed retraction with the re-parsed one on the same output line and names
 // the mismatch: "" (none), "retract" (interval or pairing), "retract-rationale" (unexplained), or one
 // of the two structural causes recorded as findings (computed from the session itself):
-//   inherited: typed rationale "" for a line created by AddRetract that has no comment of its own and sits
-//              in a retract block whose comments the strict parser therefore attributes to it;
-//   blank:     a parsed line preceded only by a blank line (no inheritance at parse) lost that blank line;
-//   collapsed: a Cleanup of this session collapsed the one-line commented block around the line and merged
-//              the block's comments into it (re-parsed = block text [+ "\n" + typed]).
+//
+//	inherited: typed rationale "" for a line created by AddRetract that has no comment of its own and sits
+//	           in a retract block whose comments the strict parser therefore attributes to it;
+//	blank:     a parsed line preceded only by a blank line (no inheritance at parse) lost that blank line;
+//	collapsed: a Cleanup of this session collapsed the one-line commented block around the line and merged
+//	           the block's comments into it (re-parsed = block text [+ "\n" + typed]).
 func edRetractDetail(run *edRun) string {
 	if run.Mod == nil {
 		return "" // go.work has no retractions
